@@ -90,9 +90,10 @@ def _glob_seq(t, i, scope):
             out.append(("sep",))
             i += 1
         else:
-            if scope != "top" and c in "{}(),|":
-                # the translator's nested scopes exclude these as plain characters; outside the documented subset
-                raise Unsupported("bare %r inside brackets" % c)
+            # inside {..} only `{ , }` have a meaning, inside an ext-glob (..) only `( | )`; everything else is an ordinary
+            # character there ("every other character literal").  A bare opening bracket of the scope's own kind is ambiguous.
+            if (scope == "curly" and c == "{") or (scope == "round" and c == "("):
+                raise Unsupported("bare %r inside brackets of the same kind" % c)
             out.append(("lit", c))
             i += 1
     return out, i
